@@ -147,8 +147,8 @@ Plan shrink_plan(const PropCfg &cfg, const Plan &plan, const std::string &prop, 
       try_world([s](Plan &q) { q.starts[s].input_size = -1; });
     }
   }
-  // freeze the schedule of the minimised plan, then try the simplest schedules
-  {
+  // freeze the schedule of the minimised plan, then try the simplest schedules (not for crashes: the run must stay out of this process)
+  if (cls != "crash") {
     RunResult rr;
     CaseResult r = run_case(cfg, best, &rr);
     (void) r;
